@@ -92,7 +92,7 @@ ml! {
 	c12q_ml_map_1: BTreeMap<u8, u8>, Some(1), 2, false, 6; c12q_ml_set_1: BTreeSet<u8>, Some(1), 1, false, 6;
 	c12t_ml_vec_u8_0: Vec<u8>, Some(0), 1, true, 4; c12t_ml_vec_u128_1: Vec<u128>, Some(1), 17, true, 20; c12t_ml_vec_opt_3: Vec<Option<u8>>, Some(3), 7, true, 10;
 	c12t_ml_tup_vecs: (Vec<u8>, Option<Box<u16>>), None, 6, true, 9; c12t_ml_heap_2: BinaryHeap<u8>, Some(2), 2, false, 8; c12t_ml_list_box: LinkedList<Box<u8>>, Some(1), 2, true, 6;
-	c12t_ml_map_2: BTreeMap<u8, u8>, Some(2), 4, false, 8; c12t_ml_box_vec: Box<Vec<u8>>, None, 4, true, 8; c12t_ml_string_0: String, Some(0), 1, false, 6;
+	c12t_ml_box_vec: Box<Vec<u8>>, None, 4, true, 8; c12t_ml_string_0: String, Some(0), 1, false, 6;
 }
 
 /// 4. hook arguments for EVERY count in u32: the decode is aborted at the first announcement, so
@@ -150,6 +150,29 @@ pub fn c12q_hook_every_count_list_vec_box() {
 	let (seen_z, _) = first_announcement::<Box<()>>(&bytes[..]);
 	assert!(seen_z == Some(0));
 }
+
+/// every chunk reservation is announced, not only the first: element size 8192 => chunk_len 2; three elements need two
+/// reservations (2 + 1 elements) and the tracked usage must cover all three elements
+pub struct Pad8k(pub [u8; 8191]);
+impl Default for Pad8k { fn default() -> Self { Pad8k([0; 8191]) } }
+#[derive(Decode)]
+pub struct Big8k { pub x: u8, #[codec(skip)] pub pad: Pad8k }
+impl DecodeWithMemTracking for Big8k {}
+use crate::with_stubs;
+with_stubs!(le_32k, #[kani::unwind(6)] pub fn c12q_every_chunk_announced() {
+	let bytes: [u8; 3] = kani::any();
+	let mut h = HookLog::new(Unk(&bytes[..]));
+	let r = parity_scale_codec::decode_vec_with_len::<Big8k, _>(&mut h, 3);
+	assert!(r.is_ok());
+	assert!(h.used >= 3 * core::mem::size_of::<Big8k>(), "tracked usage is below count x element size: a later chunk reservation was not announced");
+	assert!(h.calls == 2, "one announcement per chunk reservation");
+	// and the limit really binds on the later chunk: a limit between one chunk and the total must fail
+	let lim: usize = kani::any();
+	kani::assume(lim > 2 * 8192 && lim <= 3 * 8192);
+	let r2 = <Vec<Big8k>>::decode_with_mem_limit(&mut PreUnk(Pre::count(3, &bytes[..])), lim);
+	assert!(r2.is_err(), "a limit below the tracked usage of the whole vector was not enforced on the second chunk");
+	core::mem::forget((r, r2));
+});
 
 /// negative twin: "limit == usage succeeds" must FAIL (fails at >=)
 #[kani::proof]
